@@ -12,6 +12,9 @@
 package main
 
 import (
+	"github.com/formancehq/ledger/verifharness/fakepg"
+	"database/sql/driver"
+	"context"
 	"bufio"
 	"bytes"
 	"encoding/json"
@@ -81,6 +84,10 @@ func pickMeta(class string, rng *rand.Rand) metadata.Metadata {
 func pickKey(class string, rng *rand.Rand) string {
 	if class == "none" {
 		return ""
+	}
+	// 255 characters (what the column takes), or longer
+	if rng.Intn(2) == 0 {
+		return strings.Repeat("k", 295) + fmt.Sprintf("%05d", rng.Intn(100000))
 	}
 	return strings.Repeat("k", 250) + fmt.Sprintf("%05d", rng.Intn(100000))
 }
@@ -172,13 +179,41 @@ func viaRow(c *ledger.ChainedLog) (out *ledger.ChainedLog, err error) {
 			err = fmt.Errorf("panic: %v", e)
 		}
 	}()
-	data, err := json.Marshal(c.Data)
-	if err != nil {
-		return nil, err
+	// the real Store.InsertLogs over the recording driver: the row is what it hands to COPY
+	srv := &fakepg.Server{}
+	db := fakepg.Open(srv)
+	defer db.Close()
+	store := ledgerstore.NewStoreOverDB(db, "bucket", "l")
+	if err := store.InsertLogs(context.Background(), c); err != nil {
+		return nil, fmt.Errorf("InsertLogs: %w", err)
 	}
+	if len(srv.ExecArgs) != 1 || len(srv.ExecArgs[0]) != 7 {
+		return nil, fmt.Errorf("InsertLogs wrote %d rows", len(srv.ExecArgs))
+	}
+	a := srv.ExecArgs[0]
+	str := func(v driver.Value) string {
+		switch x := v.(type) {
+		case string:
+			return x
+		case []byte:
+			return string(x)
+		case nil:
+			return ""
+		}
+		return fmt.Sprint(v)
+	}
+	id, ok := new(big.Int).SetString(str(a[1]), 10)
+	if !ok {
+		return nil, fmt.Errorf("id column %v", a[1])
+	}
+	var date ledger.Time
+	if err := date.Scan(a[4]); err != nil {
+		return nil, fmt.Errorf("date column %v: %w", a[4], err)
+	}
+	hash, _ := a[3].([]byte)
 	row := ledgerstore.Logs{
-		Ledger: "l", ID: (*bunpaginate.BigInt)(c.ID), Type: c.Type.String(), Hash: c.Hash,
-		Date: c.Date, Data: data, IdempotencyKey: c.IdempotencyKey,
+		Ledger: str(a[0]), ID: (*bunpaginate.BigInt)(id), Type: str(a[2]), Hash: hash,
+		Date: date, Data: []byte(str(a[5])), IdempotencyKey: str(a[6]),
 	}
 	return row.ToCore(), nil
 }
